@@ -23,6 +23,12 @@ if not skip_tests:
     rc_tests, out = run(f'{PY} -m pytest -q -p no:cacheprovider --timeout=900', cwd=wt); ran.append(f'test suite with change: rc={rc_tests}: {out.strip().splitlines()[-1]}')
 run('git checkout -- .', cwd=wt); rebuild()
 rc_demo_without, out = run(f'{PY} _seed/demo.py', cwd=wt); ran.append(f'demo without change: exit {rc_demo_without}')
+# violations already present on the worktree's base commit (it may predate a later fix: commit in /repo): not detections
+man0 = json.load(open('/verif/MANIFEST.json'))
+base_viol = set()
+for c in man0['checks']:
+    _rc, _out = run(f'FJVERIF_REPO={wt} FJVERIF_NO_EVIDENCE=1 ' + c['quick_cmd'], cwd='/verif')
+    base_viol |= {l.strip().split(' (')[0] for l in _out.splitlines() if l.strip().startswith('violated:')}
 run('git apply _seed/patch.diff', cwd=wt); rebuild()
 confirmed = rc_demo_with != 0 and rc_demo_without == 0 and (rc_tests in (0, None))
 # run the checks against the worktree (= /repo HEAD + the patch); evidence files are not rewritten
@@ -34,7 +40,9 @@ man = json.load(open('/verif/MANIFEST.json'))
 env = f'FJVERIF_REPO={wt} FJVERIF_NO_EVIDENCE=1 '
 for c in man['checks']:
     rc2, out2 = run(env + c['quick_cmd'], cwd='/verif')
-    viol = [l for l in out2.splitlines() if l.strip().startswith('violated:')]
+    viol = [l for l in out2.splitlines() if l.strip().startswith('violated:') and l.strip().split(' (')[0] not in base_viol]
+    if rc2 == 1 and not viol:
+        continue
     err = [l for l in out2.splitlines() if l.startswith('ANALYSIS-ERROR')]
     if rc2 != 0:
         results[c['property_id']] = dict(exit=rc2, violated=[v.strip()[:300] for v in viol[:6]], analysis_error=err[:2])
